@@ -468,20 +468,40 @@ func runC13(c *Collector, r *Rng, thorough bool) {
 				h.Unprotected[k] = []byte{4, 5, 6}
 			}
 			bad := len(iv.p)+len(iv.u) == 2 && iv.name != "p5u5" && iv.name != "p6u6"
-			for _, structure := range []string{"sign1", "signature", "signmsg"} {
-				var op, obs string
-				var err error
-				switch structure {
-				case "sign1":
-					op, obs, _, err, _ = execEncSign1(true, &cose.Sign1Message{Headers: h, Payload: []byte("p"), Signature: []byte{1}})
-				case "signature":
-					op, obs, _, err, _ = execEncSignature(&cose.Signature{Headers: h, Signature: []byte{1}})
-				case "signmsg":
-					op, obs, _, err, _ = execEncSignMsg(&cose.SignMessage{Headers: h, Payload: []byte("p"), Signatures: []*cose.Signature{{Headers: cose.Headers{Protected: cose.ProtectedHeader{cose.HeaderLabelAlgorithm: cose.AlgorithmES256}}, Signature: []byte{1}}}})
+			typed := h
+			for _, rawMode := range []string{"typed", "raw-protected-kept", "raw-unprotected-kept"} {
+				h := cloneHeaders(typed)
+				// a layer that was decoded earlier keeps the raw bytes of a bucket next to the typed map; the rule
+				// concerns the layer, whichever representation of a bucket is going to be emitted
+				switch rawMode {
+				case "raw-protected-kept":
+					b, err := typed.MarshalProtected()
+					if err != nil {
+						continue
+					}
+					h.RawProtected = b
+				case "raw-unprotected-kept":
+					b, err := typed.MarshalUnprotected()
+					if err != nil {
+						continue
+					}
+					h.RawUnprotected = b
 				}
-				addCase(c, "iv/"+iv.name+"/"+structure, op, obs, true)
-				if (err != nil) != bad {
-					c.Fail("C13/iv-encode", fmt.Sprintf("IV/Partial IV combination %s in %s: encode refused=%v, expected refused=%v", iv.name, structure, err != nil, bad), map[string]any{"op": trunc(op, 600)})
+				for _, structure := range []string{"sign1", "signature", "signmsg"} {
+					var op, obs string
+					var err error
+					switch structure {
+					case "sign1":
+						op, obs, _, err, _ = execEncSign1(true, &cose.Sign1Message{Headers: h, Payload: []byte("p"), Signature: []byte{1}})
+					case "signature":
+						op, obs, _, err, _ = execEncSignature(&cose.Signature{Headers: h, Signature: []byte{1}})
+					case "signmsg":
+						op, obs, _, err, _ = execEncSignMsg(&cose.SignMessage{Headers: h, Payload: []byte("p"), Signatures: []*cose.Signature{{Headers: cose.Headers{Protected: cose.ProtectedHeader{cose.HeaderLabelAlgorithm: cose.AlgorithmES256}}, Signature: []byte{1}}}})
+					}
+					addCase(c, "iv/"+iv.name+"/"+structure+"/"+rawMode, op, obs, true)
+					if (err != nil) != bad {
+						c.Fail("C13/iv-encode", fmt.Sprintf("IV/Partial IV combination %s in %s (%s): encode refused=%v, expected refused=%v", iv.name, structure, rawMode, err != nil, bad), map[string]any{"op": trunc(op, 600)})
+					}
 				}
 			}
 		}
@@ -497,11 +517,11 @@ func runC13(c *Collector, r *Rng, thorough bool) {
 		bad := len(iv.p)+len(iv.u) == 2 && iv.name != "p5u5" && iv.name != "p6u6"
 		p, u := wBstr(wMap(-1, pkv...).Ser(), -1), wMap(-1, ukv...)
 		for kind, t := range map[string]*W{
-			"DSign1":     wTag(18, -1, wArr(-1, p, u, wBstr([]byte("p"), -1), wBstr([]byte{1}, -1))),
-			"DSign1U":    wArr(-1, p, u, wBstr([]byte("p"), -1), wBstr([]byte{1}, -1)),
-			"DSignature": wArr(-1, p, u, wBstr([]byte{1}, -1)),
-			"DSignMsg":   wTag(98, -1, wArr(-1, p, u, wBstr([]byte("p"), -1), wArr(-1, wArr(-1, wBstr([]byte{0xa1, 1, 0x26}, -1), wMap(-1), wBstr([]byte{1}, -1))))),
-			"DSignMsg/signer": wTag(98, -1, wArr(-1, wBstr(nil, -1), wMap(-1), wBstr([]byte("p"), -1), wArr(-1, wArr(-1, p, u, wBstr([]byte{1}, -1))))),
+			"DSign1":                         wTag(18, -1, wArr(-1, p, u, wBstr([]byte("p"), -1), wBstr([]byte{1}, -1))),
+			"DSign1U":                        wArr(-1, p, u, wBstr([]byte("p"), -1), wBstr([]byte{1}, -1)),
+			"DSignature":                     wArr(-1, p, u, wBstr([]byte{1}, -1)),
+			"DSignMsg":                       wTag(98, -1, wArr(-1, p, u, wBstr([]byte("p"), -1), wArr(-1, wArr(-1, wBstr([]byte{0xa1, 1, 0x26}, -1), wMap(-1), wBstr([]byte{1}, -1))))),
+			"DSignMsg/signer":                wTag(98, -1, wArr(-1, wBstr(nil, -1), wMap(-1), wBstr([]byte("p"), -1), wArr(-1, wArr(-1, p, u, wBstr([]byte{1}, -1))))),
 			"DSign1/nested-countersignature": wTag(18, -1, wArr(-1, wBstr([]byte{0xa1, 1, 0x26}, -1), wMap(-1, wInt(7, -1), wArr(-1, p, u, wBstr([]byte{1}, -1))), wBstr([]byte("p"), -1), wBstr([]byte{1}, -1))),
 		} {
 			k := kind
@@ -532,6 +552,78 @@ func runC13(c *Collector, r *Rng, thorough bool) {
 				continue
 			}
 			addCase(c, "crit", op, obs, true)
+		}
+	}
+	// crit entries are compared with the labels by value and by type: the text "4" does not name the
+	// integer label 4 and vice versa. Expected verdict computed here, independently of the library.
+	type critCase struct {
+		labels []any // labels present next to crit (each with a valid value)
+		crit   []any
+	}
+	val := func(l any) any {
+		switch l {
+		case int64(4), int8(4):
+			return []byte("kid")
+		case int64(16), int64(3):
+			return "a/b"
+		}
+		return int64(1)
+	}
+	norm := func(l any) any {
+		switch v := l.(type) {
+		case int8:
+			return int64(v)
+		case uint64:
+			return int64(v)
+		}
+		return l
+	}
+	for _, cc := range []critCase{
+		{[]any{int64(4), int64(16)}, []any{"4"}}, {[]any{int64(4), int64(16)}, []any{int64(4), "16"}}, {[]any{int64(4), int64(16)}, []any{"16", int64(4)}},
+		{[]any{"4", "16"}, []any{int64(4)}}, {[]any{"4", "16"}, []any{"4", int64(16)}}, {[]any{"4", "16"}, []any{"4", "16"}},
+		{[]any{int64(3), "3"}, []any{int64(3), "3"}}, {[]any{int64(3)}, []any{"3"}}, {[]any{"3"}, []any{int64(3)}}, {[]any{"-70", int64(70)}, []any{int64(-70)}},
+		{[]any{int64(-70)}, []any{"-70"}}, {[]any{int8(4), "x"}, []any{uint64(4), "x"}}, {[]any{int64(4), int64(16), "x"}, []any{int64(4), int64(99), int64(16)}},
+		{[]any{int64(4), int64(16), "x"}, []any{int64(99), int64(4)}}, {[]any{int64(4), int64(16), "x"}, []any{[]byte{4}, int64(4)}}, {[]any{int64(4), int64(16), "x"}, []any{"y", "x"}},
+		{[]any{int64(4), int64(16), "x"}, []any{int64(4), int64(16), "x"}}, {[]any{int64(4), int64(16), "x"}, []any{int64(4), int64(4)}},
+	} {
+		m := cose.ProtectedHeader{int64(2): cc.crit}
+		present := map[any]bool{}
+		for _, l := range cc.labels {
+			m[l] = val(l)
+			present[norm(l)] = true
+		}
+		want := true
+		for _, e := range cc.crit {
+			switch e.(type) {
+			case int64, int8, uint64, string:
+				if !present[norm(e)] {
+					want = false
+				}
+			default:
+				want = false
+			}
+		}
+		op, obs, out, err, p := execEncProt(m)
+		if p {
+			c.Fail("C13/panic", "encoder panicked on crit", map[string]any{"op": op})
+			continue
+		}
+		addCase(c, "crit-by-value", op, obs, true)
+		if (err == nil) != want {
+			c.Fail("C13/crit-membership", fmt.Sprintf("crit %v next to labels %v: encode accepted=%v, RFC 9052 3.1 says %v", cc.crit, cc.labels, err == nil, want), map[string]any{"op": trunc(op, 400)})
+		}
+		// the same header set on the decode side (built by the harness's own encoder when the library refuses)
+		var wire []byte
+		if err == nil {
+			wire = out
+		} else if b, e2 := refEnc.Marshal(map[any]any(m)); e2 == nil {
+			wire = refBstr(b)
+		}
+		if wire != nil {
+			d := decodeCase(c, "crit-by-value/decode", "DProt", wire)
+			if !d.paniced && (d.err == nil) != want {
+				c.Fail("C13/crit-membership-decode", fmt.Sprintf("crit %v next to labels %v: decode accepted=%v, RFC 9052 3.1 says %v", cc.crit, cc.labels, d.err == nil, want), map[string]any{"data": hx(wire)})
+			}
 		}
 	}
 }
